@@ -47,7 +47,12 @@ def plan(tier, seed):
 
 
 def mandatory_bins(tier):
-    return ["edit:" + e for e in EDIT_NAMES] + ["valid_accepted", "encrypted_component", "zero_components", "via_from_binary", "via_read_file", "plain_component_with_other_enc_tag_value", "edit:valid_description_of_210_bytes", "edit:valid_many_components", "edit:payload_mac_made_under_a_key_read_earlier"]
+    return ["edit:" + e for e in EDIT_NAMES] + ["valid_accepted", "encrypted_component", "zero_components", "via_from_binary", "via_read_file", "plain_component_with_other_enc_tag_value", "edit:valid_description_of_210_bytes", "edit:valid_many_components", "edit:payload_mac_made_under_a_key_read_earlier", "mac_check_off"]
+
+
+# rules a reader has to enforce whether or not it verifies MACs (truncations are left out: what a cut file looks like to the
+# structural parser depends on where the cut falls)
+STRUCTURAL_RULES = {"declared_exceeds_stored", "duplicate_tag", "address_not_absolute_contiguous", "trailing_bytes", "signature", "description_tlv_truncated", "entry_length_vs_description_length", "bytes_after_sentinel_in_directory"}
 
 
 def finish(agg, tier):
@@ -56,17 +61,17 @@ def finish(agg, tier):
     return {}
 
 
-def reader_decision(ns, binary, key, via):
+def reader_decision(ns, binary, key, via, check_cmac=True):
     BF = ns.bf3file
     try:
         if via == "read_file":
-            obj = BF.Bf3File.read_file(io.StringIO(L.text_of([], binary)), True, key)
+            obj = BF.Bf3File.read_file(io.StringIO(L.text_of([], binary)), check_cmac, key)
         else:
             rdr = ns.bytes_reader.BytesReader(binary, "BF3 files Binary Data")
             sig = rdr.read(len(L.BF3_SIG))
             if sig != L.BF3_SIG:
                 raise ValueError("signature")
-            obj = BF.Bf3File.from_binary(rdr, {}, True, key)
+            obj = BF.Bf3File.from_binary(rdr, {}, check_cmac, key)
         return obj, None
     except Exception as e:
         return None, e
@@ -111,6 +116,23 @@ def judge(ns, ctx, name, expected_rule, binary, key, via, rp):
     else:
         if obj is not None:
             ctx.violation("reader_accepts_binary_breaking_rule:" + vrule, {"edit": name, "via": via, "components_returned": len(obj.components)}, rp)
+    # the same binary with MAC checking switched OFF: the structural rules do not depend on the MACs, so whatever the
+    # validator finds wrong with the MAC rules ignored must still be refused, and accepted input still returns what the fields say
+    try:
+        ents2 = L.parse_bf3(binary, key, False)
+        srule = None
+    except L.LayoutError as e:
+        ents2, srule = None, e.rule
+    obj2, exc2 = reader_decision(ns, binary, key, via, False)
+    ctx.mon("reader_decision")
+    ctx.bin("mac_check_off")
+    if srule is not None and obj2 is not None and srule in STRUCTURAL_RULES:
+        ctx.violation("reader_with_mac_check_off_accepts_binary_breaking_rule:" + srule, {"edit": name, "via": via}, rp)
+    elif srule is None and obj2 is not None and ents2 is not None:
+        for c, e_ in zip(obj2.components, ents2):
+            if c.actual_len != e_.declared or len(obj2.components) != len(ents2):
+                ctx.violation("accepted_content_differs_from_fields:mac_check_off", {"edit": name, "via": via}, rp)
+                break
 
 
 def gen_valid(rng):
